@@ -109,6 +109,38 @@ ob("C12", "K2.cmp_ast", {"which": R(0, 4), "v0": R(-5, 5), "v1": R(-5, 5), "c0":
          "arg name) set to ANY two values in the two copies")(cmp_leaf)
 
 
+def cmp_shape(field, drop, swap):
+    """cmp_ast(x, y) is False when one list-valued field of y is a strict PREFIX / strict SUFFIX of x's (a trailing or leading statement, argument, default, element ... is missing)"""
+    from cdd.shared.ast_utils import cmp_ast
+
+    src = ("@deco\n@deco2\nclass T(Base, Other, metaclass=M):\n    '''doc'''\n    y: int = 2\n    z: str = 's'\n    def m(self, a=1, b=2, *, k='s', j=None):\n"
+           "        q = [a, (k, 3), 4]\n        return f(q, b, key=j, flag=True)\n")
+    x, y = ast.parse(src).body[0], ast.parse(src).body[0]
+    sites = []
+    for n in ast.walk(y):
+        for name, val in ast.iter_fields(n):
+            if isinstance(val, list) and len(val) >= 2:
+                sites.append((n, name))
+    n_sites = len(sites)
+    if field >= n_sites:
+        return ""
+    node, name = sites[0]
+    for k in range(1, n_sites):
+        if field == k:
+            node, name = sites[k]
+    lst = getattr(node, name)
+    setattr(node, name, lst[1:] if drop else lst[:-1])
+    a, b = (y, x) if swap else (x, y)
+    if cmp_ast(a, b):
+        return "cmp_ast reports two trees equal although the %s list of a %s node lost its %s element" % (name, type(node).__name__, "first" if drop else "last")
+    return ""
+
+
+ob("C12", "K2.cmp_ast.shape", {"field": R(0, 11), "drop": BOOL, "swap": BOOL}, T=300, funcs=["cdd.shared.ast_utils.cmp_ast"],
+   bound="a decorated class with bases, keyword, attributes and a method with defaults, keyword-only arguments, list/tuple literals and a call: ANY list-valued field with >= 2 elements "
+         "(body, decorators, bases, args, defaults, kw-only args, elements, call arguments, keywords) loses its first or last element in one copy; both argument orders")(cmp_shape)
+
+
 def second_run(fmt, d0, d1):
     """re-emitting the truth gives a cmp_ast-equal node, so the second sync leaves the file alone"""
     import cdd.argparse_function.emit
@@ -391,3 +423,95 @@ ob("C12", "K6.sync_thrice", {"class_state": R(0, 3), "wrap": BOOL}, T=900, tpath
             "depends on black's normalisation of the first run's output"],
    bound="the whole sync with a method as truth, an existing argparse target and a class target file that is missing / empty / holds unrelated code / holds unrelated code "
          "and a stale class (solver-enumerated), run three times: valid Python, truth untouched, unrelated code kept, class takes the truth's interface, runs 2 and 3 byte-identical")(sync_thrice)
+
+
+# K7: the truth (or the target) EVOLVES between two syncs: the second sync must bring the class back to the truth's interface -----------------------------
+def _methods(params, documented):
+    sig = ", ".join("%s: %s = %s" % p for p in params)
+    doc = "        The truth.\n" + ("".join("\n        :param %s: the %s\n" % (p[0], p[0]) for p in params) if documented else "")
+    return ('class C(object):\n    """C class"""\n\n    def helper(self):\n        return 2\n\n    def function_name(self, %s):\n        """\n%s        """\n\n    def tail(self):\n        return 3\n' % (sig, doc))
+
+
+P_BASE = (("gamma", "float", "0.5"), ("name", "str", '"x"'))
+EVOLVE = {0: P_BASE + (("beta", "int", "3"),),  # a trailing parameter is added to the truth
+          1: P_BASE[:1],  # the trailing parameter is removed from the truth
+          2: (("alpha", "int", "1"),) + P_BASE,  # a leading parameter is added
+          3: (("gamma", "float", "0.5"), ("name", "str", '"y"')),  # only a default value changes
+          4: P_BASE}  # the truth stays; the TARGET gains a trailing attribute by hand
+
+
+def sync_evolve(change, documented):
+    import contextlib
+    import io
+    from argparse import Namespace
+
+    import cdd.shared.emit.file as ef
+    from cdd.shared.conformance import ground_truth
+
+    _N[0] += 1
+    d = os.path.join(_ROOT, "e%d" % _N[0])
+    os.mkdir(d)
+    files = {"class": os.path.join(d, "classes.py"), "function": os.path.join(d, "methods.py"), "argparse": os.path.join(d, "argp.py")}
+    want = EVOLVE[0]
+    for k in (1, 2, 3, 4):
+        if change == k:
+            want = EVOLVE[k]
+    try:
+        with open(files["function"], "wt") as f:
+            f.write(_methods(P_BASE, documented))
+        with open(files["argparse"], "wt") as f:
+            f.write(ARGP)
+        args = Namespace(argparse_functions=[files["argparse"]], argparse_function_names=["set_cli_args"], classes=[files["class"]], class_names=["ConfigClass"],
+                         functions=[files["function"]], function_names=["C.function_name"], truth="function", no_word_wrap=True)
+
+        def run(n):
+            with contextlib.redirect_stdout(io.StringIO()), contextlib.redirect_stderr(io.StringIO()), _untraced_black(ef):
+                try:
+                    ground_truth(args, files["function"])
+                except Exception as e:
+                    return "sync %d raised %s: %s" % (n, type(e).__name__, e)
+            return ""
+
+        e = run(1)
+        if e:
+            return e
+        if change == 4:
+            with open(files["class"], "rt") as f:
+                text = f.read()
+            with open(files["class"], "wt") as f:
+                f.write(text.rstrip("\n") + "\n    verbose: bool = False\n")
+        else:
+            with open(files["function"], "wt") as f:
+                f.write(_methods(want, documented))
+        e = run(2)
+        if e:
+            return e
+        with open(files["class"], "rt") as f:
+            after2 = f.read()
+        e = run(3)
+        if e:
+            return e
+        with open(files["class"], "rt") as f:
+            after3 = f.read()
+    finally:
+        shutil.rmtree(d, ignore_errors=True)
+    try:
+        klass = [n for n in ast.parse(after2).body if isinstance(n, ast.ClassDef) and n.name == "ConfigClass"]
+    except SyntaxError as e:
+        return "class file is not valid Python after the second sync: %s" % e
+    if not klass:
+        return "the class target disappeared"
+    attrs = [(st.target.id, ast.unparse(st.annotation), ast.unparse(st.value)) for st in klass[0].body if isinstance(st, ast.AnnAssign)]
+    expect = [(n, t, ast.unparse(ast.parse(v).body[0].value)) for n, t, v in want]
+    if attrs != expect:
+        return "after the %s changed, the second sync left the class with %r instead of the truth's %r" % ("target" if change == 4 else "truth", attrs, expect)
+    if after3 != after2:
+        return "a third sync changed the class file again"
+    return ""
+
+
+ob("C12", "K7.sync_evolves", {"change": R(0, 4), "documented": BOOL}, T=1200, tpath=200,
+   funcs=["cdd.shared.conformance.ground_truth", "cdd.shared.conformance._conform_filename", "cdd.shared.ast_utils.cmp_ast", "cdd.shared.ast_utils.RewriteAtQuery", "cdd.class_.emit.class_"],
+   assumes=["black.format_str runs for real but OUTSIDE the tracer (see K6)"],
+   bound="history: sync creates the class from a method truth; then the truth gains a trailing / loses its trailing / gains a leading parameter / changes a default, or the class gains a "
+         "trailing attribute by hand; parameters documented in the truth's docstring or not (solver-enumerated); sync again: the class has exactly the truth's interface; a third sync is a no-op")(sync_evolve)
